@@ -789,9 +789,9 @@ func kqHistory(rng *rand.Rand, o kqOpts) (rep kqReport) {
 	if quiesce() {
 		st := fsnotify.VerifKq(w)
 		nv := len(vnodeFds(unix.Ledger()))
-		if nv > 0 || len(st.Wd) > 0 || len(st.Path) > 0 || st.ByDir > 0 || len(st.Seen) > 0 || len(st.ByUser) > 0 {
+		if nv > 0 || len(st.Wd) > 0 || len(st.Path) > 0 || st.ByDir > 0 || st.ByDirKeys > 0 || len(st.Seen) > 0 || len(st.ByUser) > 0 {
 			kind := "not-empty-after-remove-all"
-			if nv == 0 && len(st.Wd) == 0 && len(st.Path) == 0 && st.ByDir == 0 && len(st.ByUser) == 0 {
+			if nv == 0 && len(st.Wd) == 0 && len(st.Path) == 0 && st.ByDir == 0 && st.ByDirKeys == 0 && len(st.ByUser) == 0 {
 				kind = "seen-set-not-empty-after-remove-all"
 				// The seen set is only cleaned for entries that are watched; a name the backend
 				// could not open (named pipe, dangling symlink) — recorded under its own name or,
@@ -824,7 +824,7 @@ func kqHistory(rng *rand.Rand, o kqOpts) (rep kqReport) {
 					kind = "K3-link-watch-target-deleted"
 				}
 			}
-			report(kind, fmt.Sprintf("after removing every user watch: %d descriptors open, tables wd=%d path=%d byDir=%d seen=%d byUser=%q", nv, len(st.Wd), len(st.Path), st.ByDir, len(st.Seen), trimAll(st.ByUser, tmp)))
+			report(kind, fmt.Sprintf("after removing every user watch: %d descriptors open, tables wd=%d path=%d byDir=%d (index keys %d) seen=%d byUser=%q", nv, len(st.Wd), len(st.Path), st.ByDir, st.ByDirKeys, len(st.Seen), trimAll(st.ByUser, tmp)))
 		}
 	}
 	closed = true
